@@ -321,6 +321,7 @@ func runC19(c *Ctx) {
 	c19Consts(c, cf)
 	c19Keys(c, cf)
 	c19WordsConverter(c)
+	c02Ring(c) // the LPM slot index stored in a match set is the slot the trie is installed at (shared with C02)
 }
 
 func c19Maps(c *Ctx, cf *CFacts, pairs map[string]*types.TypeName) {
